@@ -6,9 +6,11 @@ import Model.Fmt.Files
 import Model.Spec.Format
 import Proofs.Lemmas.C02Store
 import Proofs.Lemmas.C02Spec
+import Proofs.Lemmas.C02SpecM
 
 namespace Fmt
-open Spec.Format
+open Spec.Format hiding classify lineRecs readFrom read readFiles
+open Spec.FormatM
 
 /-! ### Records up to "configuration as a map" -/
 
@@ -247,7 +249,8 @@ theorem fill_spec (O : Oracles) (ls : List Bytes) :
 end Fmt
 
 namespace Fmt
-open Spec.Format
+open Spec.Format hiding classify lineRecs readFrom read readFiles
+open Spec.FormatM
 
 theorem fill_empty (O : Oracles) (ls : List Bytes) :
     ∀ st, (fill O st ls).2.2 = [] → (fill O st ls).2.1 = [] := by
@@ -328,7 +331,8 @@ end Fmt
 
 /-! ### Shifting line numbers -/
 namespace Fmt
-open Spec.Format
+open Spec.Format hiding classify lineRecs readFrom read readFiles
+open Spec.FormatM
 
 /-- add `d` to the line number a record reports -/
 def Rec.bump (d : Nat) : Rec → Rec
